@@ -212,6 +212,42 @@ func TestVerifC06(t *testing.T) {
 			g.do("pf", va(0), 2)
 		})
 	}
+	// present upper-level entries WITHOUT RW (plus NX / User / Accessed) on the temporary slot's path
+	// and on the faulting page's path: the handler must walk through them and leave every other page
+	// below them mapped
+	for l := 0; l < 3; l++ {
+		for variant := 0; variant < 3; variant++ {
+			l, variant := l, variant
+			bcase("b-readonly-upper", func() {
+				g.refill(30)
+				g.do("region", 700, 3*4096, 3)     // pages that share all three tables with the temporary page
+				g.do("map", g.tmp-40, 4242, 1<<63|1) // another neighbour of the temporary page
+				g.setupPage(0, 0x201, 0x77)
+				g.setupPage(1, 0x201|1<<63, 0x99)
+				g.setupPage(2, 3, 0x55)
+				for _, va := range []uint64{uint64(tempMappingAddr), g.winPage(0) << 12} {
+					if variant == 1 && va != uint64(tempMappingAddr) {
+						continue
+					}
+					if variant == 2 && va == uint64(tempMappingAddr) {
+						continue
+					}
+					if t, ok := m.tableOf(uintptr(va), l); ok {
+						idx := (va >> hwShifts[l]) & 511
+						e := *vmWord(uintptr(t)<<12 + uintptr(idx)*8)
+						g.do("poke", t, idx, e&^2|[]uint64{0, 1 << 63, 4 | 0x20}[l])
+					}
+				}
+				g.do("pf", g.winPage(0)<<12|0x18, 3)
+				g.do("xlate", g.winPage(0)<<12)
+				g.do("xlate", g.winPage(1)<<12)
+				g.do("xlate", (g.tmp-40)<<12)
+				g.do("xlate", uint64(earlyReserveLastUsed))
+				g.do("pf", g.winPage(1)<<12, 3)
+				g.do("xlate", uint64(earlyReserveLastUsed)+4096)
+			})
+		}
+	}
 	bcase("b-alloc-fail", func() {
 		g.refill(8)
 		g.do("maptmp", 5)
@@ -268,6 +304,9 @@ func TestVerifC06(t *testing.T) {
 			g.do("maptmp", uint64(1+r.intn(1000)))
 		}
 		zf := uint64(ReservedZeroedFrame)
+		if r.chance(40) { // pages that share tables with the temporary page
+			g.do("region", uint64(1+r.intn(1000)), uint64(1+r.intn(3*4096)), r.pick(3, 1, 1<<63|3))
+		}
 		// pages of the host-backed window
 		np := r.between(1, 6)
 		frames := make([]uint64, np)
@@ -315,7 +354,11 @@ func TestVerifC06(t *testing.T) {
 		steps := r.between(1, 8)
 		for j := 0; j < steps && g.alive; j++ {
 			k := r.intn(np)
-			switch r.intn(14) {
+			switch r.intn(16) {
+			case 14: // read-only (still present) upper level on the temporary slot's path
+				g.weaken(uint64(tempMappingAddr), r.intn(3))
+			case 15: // ... or on the faulting page's path
+				g.weaken(va(k), r.intn(3))
 			case 0:
 				g.damage(va(k), r.intn(3), r.chance(70))
 			case 1:
